@@ -329,7 +329,9 @@ func init() {
 		for _, a := range [][]int{{0, 0, 1}, {1, 0, 1}, {0, 1, 1}, {1, 1, 0}} {
 			js = append(js, J("plugin/proxy", "VX_C19_ProxyPush", a...))
 		}
+		js = append(js, J("plugin/proxy", "VX_C19_Sequence", 3))
 		if tier == "thorough" {
+			js = append(js, J("plugin/proxy", "VX_C19_Sequence", 4))
 			js = append(js, J("plugin/proxy", "VX_C19_ProxyCall", 0, 0, 3, 1, 1), J("plugin/proxy", "VX_C19_ProxyCall", 1, 1, 2, 1, 1), J("plugin/proxy", "VX_C19_ProxyPush", 0, 0, 3))
 		}
 		return js
@@ -480,7 +482,8 @@ func init() {
 				J("plugin/overloader", "VX_C18_ConnRace", 1), J("plugin/overloader", "VX_C18_ConnRace", 2),
 				J("plugin/overloader", "VX_C18_QPS", 2, 3), J("plugin/overloader", "VX_C18_QPS", 1, 1), J("plugin/overloader", "VX_C18_QPSSession", 1, 3, 0), J("plugin/overloader", "VX_C18_QPSSession", 2, 3, 1), J("plugin/overloader", "VX_C18_QPSRace", 1, 1, 1, 2), J("plugin/overloader", "VX_C18_QPSRace", 2, 2, 3, 2),
 				J("plugin/overloader", "VX_C18_QPSInvariant", 4), J("plugin/overloader", "VX_C18_SlotAfterCloseAndLoss", 1), J("plugin/overloader", "VX_C18_SlotAfterCloseAndLoss", 2),
-				J("plugin/overloader", "VX_C18_QPSSession", 1, 3, 0, 1), J("plugin/overloader", "VX_C18_QPSSession", 2, 3, 1, 1)}
+				J("plugin/overloader", "VX_C18_QPSSession", 1, 3, 0, 1), J("plugin/overloader", "VX_C18_QPSSession", 2, 3, 1, 1),
+				J("plugin/overloader", "VX_C18_HandlerQPS", 1, 3, 0), J("plugin/overloader", "VX_C18_HandlerQPS", 2, 3, 2), J("plugin/overloader", "VX_C18_UpdateLimits", 2, 1), J("plugin/overloader", "VX_C18_UpdateLimits", 3, 1)}
 			if tier == "thorough" {
 				js = append(js, J("plugin/overloader", "VX_C18_QPSInvariant", 7), J("plugin/overloader", "VX_C18_ConnHistory", 2, 5, 1), J("plugin/overloader", "VX_C18_ConnHistory", 1, 5, 1), J("plugin/overloader", "VX_C18_QPSRace", 3, 3, 4, 2))
 			}
